@@ -237,7 +237,21 @@ func c06Scope(c *mon.Ctx, r *mon.Rand) {
 				s.Histogram(m+"v", tally.ValueBuckets{1}).RecordValue(1)
 			}
 		}
-		scopes := prog.clone().apply(root)
+		given := prog.clone()
+		scopes := given.apply(root)
+		recordOn(scopes)
+		// the maps belong to the caller again: it refills them with other (and
+		// not necessarily valid) strings; what the scopes deliver must not change
+		for _, st := range given {
+			if !st.IsTag {
+				continue
+			}
+			for k := range st.Tags {
+				st.Tags[k] = "later \x01~\xff é value"
+			}
+			st.Tags["later key \x01~é"] = "x"
+			st.Tags["laterkey"] = "\x7f |"
+		}
 		recordOn(scopes)
 		// half of the runs: close the derived scopes and derive them again with
 		// the same raw strings, before and/or after a report pass (the re-acquire
